@@ -75,7 +75,7 @@ class Coef(AbstractValue):
         return self
 
 
-def sgn0_table(w, cls, degree, extra_args=None):
+def sgn0_table(w, cls, degree, extra_args=None, coef_cls=None):
     """evaluate the class's sgn0 on every (parity, is-zero) abstraction of the canonical coefficients; a branch on anything
     else about a coefficient forks, and every fork must agree with RFC 9380"""
     from ..interp import enumerate_paths, Instance
@@ -100,22 +100,30 @@ def sgn0_table(w, cls, degree, extra_args=None):
                     c = [0] * k + [a] + [tail] * (degree - k - 1)
                     combos.add(tuple(c))
         combos = sorted(combos)
-    for combo in combos:
-        coefs = [Coef(f"c{i}", c % 2, c == 0, p) for i, c in enumerate(combo)]
+    # the constructor of the extension classes keeps its coefficients as given — ints or base-field objects (IntOrFQ): both
+    # spellings of the same element must have the same sign
+    modes = ["int"]
+    if degree is not None and coef_cls is not None:
+        modes.append("FQ objects")
+    for mode in modes:
+        for combo in combos:
+            coefs = [Coef(f"c{i}", c % 2, c == 0, p) for i, c in enumerate(combo)]
 
-        def run1(it, coefs=coefs):
-            if extra_args is not None:
-                inst = it.instantiate(cls, [list(coefs)] + extra_args(len(coefs)), {})
-            else:
-                inst = it.instantiate(cls, [coefs[0]] if degree is None else [list(coefs)], {})
-            return it.call_func(m, [inst], {})
-        want = rfc_sgn0([c % 2 for c in combo], [c == 0 for c in combo])
-        n += 1
-        for pth in enumerate_paths(w, run1, native_fields=False, max_paths=200):
-            got = pth.value if pth.outcome == "return" else f"raises {pth.value.clsname()}"
-            if pth.outcome != "return" or isinstance(got, (Term, AbstractValue)) or bool(got) != bool(want):
-                bad.append((combo, got if not isinstance(got, (Term, AbstractValue)) else "depends on more than parity/zero-ness", want))
-                break
+            def run1(it, coefs=coefs, mode=mode):
+                cs = list(coefs) if mode == "int" else [it.instantiate(coef_cls, [c], {}) for c in coefs]
+                if extra_args is not None:
+                    inst = it.instantiate(cls, [cs] + extra_args(len(coefs)), {})
+                else:
+                    inst = it.instantiate(cls, [cs[0]] if degree is None else [cs], {})
+                return it.call_func(m, [inst], {})
+            want = rfc_sgn0([c % 2 for c in combo], [c == 0 for c in combo])
+            n += 1
+            for pth in enumerate_paths(w, run1, native_fields=False, max_paths=200):
+                got = pth.value if pth.outcome == "return" else f"raises {pth.value.clsname()}"
+                if pth.outcome != "return" or isinstance(got, (Term, AbstractValue)) or bool(got) != bool(want):
+                    bad.append((combo if mode == "int" else (mode,) + tuple(combo),
+                                got if not isinstance(got, (Term, AbstractValue)) else "depends on more than parity/zero-ness", want))
+                    break
     return n, bad
 
 
@@ -181,7 +189,7 @@ def sgn0_obligations(chk, repo, w):
                    ("py_ecc.fields.optimized_bls12_381_FQ2", 2), ("py_ecc.fields.optimized_bn128_FQ2", 2),
                    ("py_ecc.fields.optimized_bls12_381_FQ12", 12), ("py_ecc.fields.optimized_bn128_FQ12", 12)):
         cls = repo.cls(q)
-        n, bad = sgn0_table(w, cls, deg)
+        n, bad = sgn0_table(w, cls, deg, coef_cls=repo.cls(q.rsplit("_", 1)[0] + "_FQ") if deg else None)
         if n is None:
             chk.ob("C14.R2", q, "sgn0 present", False, "no sgn0 method", "")
             continue
